@@ -142,6 +142,9 @@ impl ErrorMessages {
                 continue;
             };
             let Some(source_path) = sources.source_ids.get(&span.source_id) else {
+                // The span points into a source that is not a part of this tree (the
+                // standard library): it cannot be shown and means nothing to the caller.
+                e.span = None;
                 continue;
             };
 
